@@ -371,7 +371,9 @@ class FunctorCallBinding(Contract):
             'pyglove.core.typing.callable_signature:Signature.id')
   max_paths = 3000
   assumptions = ['A-C18-TYPECHECK-OFF: flags.is_type_check_enabled() is False during the call (with type checking '
-                 'on each value additionally goes through its value spec\'s apply, C04)']
+                 'on each value additionally goes through its value spec\'s apply, C04)',
+                 'A-C18-PLAIN-VALUES: arguments bound earlier are plain values, not inferential placeholders '
+                 '(pg.Ref / ValueFromParentChain are resolved first; bounded driver drv_indirect_argument_values)']
 
   @classmethod
   def variants_for(cls, tier, seed):
@@ -430,7 +432,19 @@ class FunctorCallBinding(Contract):
 
   def setup_policy(self, policy):
     from pyglove.core.symbolic import flags as _flags
+    from pyglove.core.symbolic import base as _base
+    from pyvc import axioms as _axioms
+    import builtins
     policy.handlers[id(_flags.is_type_check_enabled)] = lambda interp, a, k, f: False
+
+    # A-C18-PLAIN-VALUES: the values bound earlier are plain values, not
+    # inferential placeholders (pg.Ref, values from the parent chain), which the
+    # function resolves before use -- that path is covered by the bounded driver.
+    def isinstance_h(interp, args, kwargs, frame):
+      if args[1] is _base.Inferential and isinstance(interp.resolve(args[0]), (SAny, str, list)):
+        return False
+      return _axioms._b_isinstance(interp, args, kwargs, frame)
+    policy.handlers[id(builtins.isinstance)] = isinstance_h
 
   def drive(self, interp, pyf, args, env, check):
     return interp.call_function(pyf, [self._self] + list(self._args), dict(self._kwargs_call))
